@@ -160,7 +160,7 @@ def program_cases(rng, names, n, fixed=True, limits=None, ks=None, tapes=False):
                     cases.append(case_run(rng.randrange(2), state(exec=prog, int=[4], cfg=cfg(lim, 500)), mode, lim if mode == 0 else 0, world=w))
     for _ in range(n):
         st, nn = program_state(rng, names)
-        st["exec"] = proggen.rand_program(rng, names, 61)
+        st["exec"] = proggen.rand_program(rng, names, 61) if rng.random() < 0.7 else proggen.rand_family_program(rng, names)
         if rng.random() < 0.5:
             st = stepgen.tame_ints(st)
         lim = rng.choice(limits)
@@ -180,7 +180,7 @@ def stream_b(rng, tier, impl, modelled):
     cases, outside, unres = env_filter(cases)
     _STASH["b"] = cases
     note = ("generated programs (gen/proggen.py grammar over the %d modelled names minus EXEC.CMD, the RAND and the HashMap-ordered GRAPH names; 1-3 top-level items of "
-            "<= 60 points) + the DIVERGING/TERMINATING/EXPLODING texts, from random initial states (stepgen.rand_state, half of them with extreme INTEGERs, "
+            "<= 60 points; 30%% single-family histories, proggen.rand_family_program) + the DIVERGING/TERMINATING/EXPLODING texts, from random initial states (stepgen.rand_state, half of them with extreme INTEGERs, "
             "random GRAPH stacks), run by PushInterpreter::run (eval_push_limit in 0..1000, growth_cap in 0..500) or single-stepped k <= 250 steps, random profile. "
             "generated %d, outside the generators' bounds (dropped before reaching implementation or model) %d, libm unresolved (dropped) %d" % (len(names), n0, outside, unres))
     return Stream("b:programs", "run", "nopanic.check", cases, note)
